@@ -2,6 +2,7 @@ import GoframeModel.Ops.Sort
 import GoframeModel.Spec.SortDedup
 import GoframeModel.Lemmas.Refine
 import GoframeModel.Lemmas.Sort
+import GoframeModel.Lemmas.SortRows
 /-
   C06 — SortValues returns an ordered permutation of whole rows.
   `sort.Sort` is a parameter with the contract `SortContractSWO` (given a strict weak order it returns
@@ -97,5 +98,21 @@ theorem less_not_swo_without_homog :
     f.less ωcycle [[97]] true 1 0 = true ∧ f.less ωcycle [[97]] true 0 2 = true ∧
     f.less ωcycle [[97]] true 2 1 = true := by
   decide
+
+/-- C01's row-alignment clause for SortValues: every row of the result — all its cells together — is a row of the
+input, and the columns are the input's -/
+theorem sort_rows_whole (sorter : (Nat → Nat → Bool) → List Nat → List Nat) (hc : SortContractSWO sorter)
+    (ω : Oracle) {f : Frame} {n : Nat} (hs : f.Sorted) (hr : f.RectN n) (by_ : List Str) (asc : Bool)
+    (hby : ∀ k ∈ by_, f.has k = true) (hh : Homog ω f by_) (hn : NoNaN ω f by_) (out : Frame)
+    (h : f.sortValuesWith sorter ω by_ asc = .ok out) :
+    out.keys = f.keys ∧ ∀ r ∈ out.rows, r ∈ f.rows := by
+  have _ := hs; have _ := hr  -- not needed
+  obtain ⟨hp, _⟩ := hc (f.less ω by_ asc) (less_swo ω f by_ asc hh hn) (List.range f.nrows)
+  rw [SortRows.sortValuesWith_ok sorter ω f by_ asc hby] at h
+  injection h with h
+  subst h
+  refine ⟨permute_keys f _, SortRows.permute_rows_mem _ ?_⟩
+  intro i hi
+  exact List.mem_range.1 (hp.mem_iff.1 hi)
 
 end Goframe.C06
